@@ -1397,6 +1397,10 @@ where
                 fat_start + BlockCount(u32::from(bpb.num_fats()) * bpb.fat_size());
             // Safe to unwrap since this is a Fat32 Type
             let info_location = bpb.fs_info_block().unwrap();
+            // Both values come straight off the disk, so the sum might not fit
+            if lba_start.0.checked_add(info_location.0).is_none() {
+                return Err(Error::FormatError("Bad info sector location"));
+            }
             let mut volume = FatVolume {
                 lba_start,
                 num_blocks,
